@@ -145,6 +145,8 @@ type verifC08_scheduler struct {
 	// (it handed out an action, or the worker cannot know what it did because
 	// the call failed or its reply was unusable)
 	believes bool
+	// ghost: the last usable reply told the worker to be idle (no execute since)
+	toldIdle bool
 }
 
 func (s *verifC08_scheduler) Synchronize(ctx context.Context, in *remoteworker.SynchronizeRequest, opts ...grpc.CallOption) (*remoteworker.SynchronizeResponse, error) {
@@ -169,6 +171,11 @@ func (s *verifC08_scheduler) Synchronize(ctx context.Context, in *remoteworker.S
 		rt.Assert(in.PreferBeingIdle, "from the moment shutdown began every request asks to be left idle")
 	}
 	next := timestamppb.New(time.Unix(s.clk.now+[]int64{0, 10}[rt.Choose(2)], 0))
+	if s.toldIdle {
+		_, idle := in.CurrentState.WorkerState.(*remoteworker.CurrentState_Idle)
+		rt.Assert(idle, "a worker that was told to go idle reports idle from then on")
+		rt.Cover("sched:idle-obeyed")
+	}
 	reportsRunning := false // the worker says it is in the middle of an action
 	if st, ok := in.CurrentState.WorkerState.(*remoteworker.CurrentState_Executing_); ok {
 		_, completed := st.Executing.ExecutionState.(*remoteworker.CurrentState_Executing_Completed)
@@ -178,6 +185,7 @@ func (s *verifC08_scheduler) Synchronize(ctx context.Context, in *remoteworker.S
 	switch rt.Choose(5) {
 	case 0:
 		rt.Cover("sched:execute")
+		s.toldIdle = false
 		hh := []string{"aaaaaaaaaaaaaaaaaaaaaaaaaaaaaaaaaaaaaaaaaaaaaaaaaaaaaaaaaaaaaaaa", "bbbbbbbbbbbbbbbbbbbbbbbbbbbbbbbbbbbbbbbbbbbbbbbbbbbbbbbbbbbbbbbb"}
 		h := hh[rt.Choose(2)]
 		s.requested = append(s.requested, h)
@@ -186,6 +194,7 @@ func (s *verifC08_scheduler) Synchronize(ctx context.Context, in *remoteworker.S
 	case 1:
 		rt.Cover("sched:idle")
 		s.believes = false
+		s.toldIdle = true
 		return &remoteworker.SynchronizeResponse{NextSynchronizationAt: next, DesiredState: &remoteworker.DesiredState{WorkerState: &remoteworker.DesiredState_Idle{Idle: &emptypb.Empty{}}}}, nil
 	case 2:
 		rt.Cover("sched:no-change")
@@ -206,7 +215,7 @@ func verifHarness_C08_BuildClient() {
 		k = 3
 	}
 	rt.Bound("runs", k)
-	rt.MustCover("sched:execute", "sched:idle", "sched:no-change", "sched:rpc-error", "sched:bad-timestamp", "exec:replaced", "exec:completed-reported", "shutdown:keeps-synchronizing", "shutdown:terminates", "readiness:failed")
+	rt.MustCover("sched:execute", "sched:idle", "sched:no-change", "sched:rpc-error", "sched:bad-timestamp", "exec:replaced", "exec:completed-reported", "shutdown:keeps-synchronizing", "shutdown:terminates", "readiness:failed", "sched:idle-obeyed")
 	clk := &verifC08_clock{now: 1000}
 	ex := &verifC08_executor{cmds: make(chan verifC08_cmd)}
 	ctx := &verifC08_ctx{}
@@ -234,6 +243,7 @@ func verifHarness_C08_BuildClient() {
 				c := verifC08_cmd{kind: 1, code: []codes.Code{codes.OK, codes.Internal}[rt.Choose(2)], ack: make(chan struct{})}
 				ex.cmds <- c
 				<-c.ack
+				rt.NativeDelay() // natively, give the finished action's goroutine time to post its completion
 				finishedCurrent = true
 				clk.fireTimer = rt.NondetBool("timer fires before the completion is seen")
 			}
@@ -273,6 +283,11 @@ func verifHarness_C08_BuildClient() {
 			if _, ok := st.Executing.ExecutionState.(*remoteworker.CurrentState_Executing_Completed); ok {
 				rt.Cover("exec:completed-reported")
 			}
+		}
+		if sched.toldIdle && sched.calls > callsBefore && err == nil {
+			_, idle := bc.request.CurrentState.WorkerState.(*remoteworker.CurrentState_Idle)
+			rt.Assert(idle, "a worker that was told to go idle is idle (its next report says so)")
+			rt.Cover("sched:idle-obeyed")
 		}
 	}
 	// No goroutine is left behind: stopping the client stops the executor.
